@@ -65,6 +65,10 @@ def cli_pairs(ctx, n):
   description: Enumerate the bootstrap credentials that new machines may present when they ask to join the control plane
   keywords: [cluster]
   pipeline: false
+- command: helm upgrade release chart
+  description: Roll a packaged application forward on a kubernetes cluster reached through the kubeconfig context, as skaffold would, keeping history
+  keywords: [cluster]
+  pipeline: false
 - command: skaffold dev --port-forward
   description: Rebuild and redeploy continuously while source files change, forwarding the declared service endpoints locally
   keywords: [cluster]
